@@ -136,7 +136,7 @@ fn decode(tape: &[u32], disk: DiskCfg) -> RangeCase {
         let a = consts(&mut t);
         let b = consts(&mut t);
         let (la, lb) = (key_lit(&key_ty, a), key_lit(&key_ty, b));
-        let range = match t.pick(9) {
+        let range = match t.pick(12) {
             0 => format!("k = {la}"),
             1 => format!("k < {la}"),
             2 => format!("k <= {la}"),
@@ -145,7 +145,10 @@ fn decode(tape: &[u32], disk: DiskCfg) -> RangeCase {
             5 => format!("k between {la} and {lb}"),
             6 => format!("k > {la} and k <= {lb}"),
             7 => format!("{la} <= k and k < {lb}"),
-            _ => format!("{la} > k"),
+            8 => format!("{la} > k"),
+            9 => format!("k > {la} and k < {lb}"),
+            10 => format!("k >= {la} and k <= {lb}"),
+            _ => format!("k < {lb} and k >= {la}"),
         };
         let residual = cols.iter().find(|(n, ty)| n != "k" && ty == "int").map(|(n, _)| n.clone());
         let w = match (t.pick(3), residual) {
